@@ -63,15 +63,18 @@ def r1_py(repo, chk):
     for c in dec:
         a = [norm(x) for x in c.args]
         hdr = a[1] if len(a) > 1 else ""
-        ok = len(a) == 3 and a[0] == f"packet[len({hdr}):]" and a[2] == "packet_number"
+        ok = len(a) == 3 and a[0] == f"packet[len({hdr}):]" and isinstance(c.args[2], ast.Name)
         chk.ob("R1", "decrypt_packet: associated data is the unprotected header, payload its exact complement, nonce from the decoded packet number", ok, f"arguments {a}", cc.loc(c))
         # the header comes from header protection removal of the same packet
         defs = [st for st in cc.stmts(lambda s: isinstance(s, ast.Assign)) if isinstance(st.targets[0], ast.Tuple) and hdr in [norm(e) for e in st.targets[0].elts]]
         ok = len(defs) == 1 and isinstance(defs[0].value, ast.Call) and call_name(defs[0].value) == "self.hp.remove" and norm(defs[0].value.args[0]) == "packet"
         chk.ob("R1", "decrypt_packet: the header is the output of header-protection removal on the same packet", ok, "", cc.loc(c))
-        pn = cc.local_defs("packet_number")
-        ok = any(isinstance(d, ast.Call) and call_name(d) == "decode_packet_number" for d in pn)
-        chk.ob("R1", "decrypt_packet: the nonce uses the expanded (not the truncated) packet number", ok and cc.before(_stmt(cc, [d for d in pn if isinstance(d, ast.Call)][0]), c) if ok else False, "", cc.loc(c))
+        # role, not name: the third argument is the variable last assigned from decode_packet_number(...) before the call
+        pnv = c.args[2].id if len(c.args) == 3 and isinstance(c.args[2], ast.Name) else None
+        asg = sorted([(st.lineno, v) for st, t, v in cc.assigns(chain=pnv)] + [(st.lineno, None) for st in cc.stmts(lambda x: isinstance(x, ast.Assign)) if isinstance(st.targets[0], ast.Tuple) and pnv in [norm(e) for e in st.targets[0].elts]], key=lambda x: x[0]) if pnv else []
+        before = [(ln, v) for ln, v in asg if ln < c.lineno]
+        ok = bool(before) and isinstance(before[-1][1], ast.Call) and call_name(before[-1][1]) == "decode_packet_number"
+        chk.ob("R1", "decrypt_packet: the nonce uses the expanded (not the truncated) packet number", ok, f"`{pnv}` last assigned from {norm(before[-1][1]) if before and before[-1][1] is not None else 'a tuple target / nothing'}", cc.loc(c))
     ce = Fn(repo, "quic.crypto:CryptoContext.encrypt_packet")
     enc = [c for c in ce.calls(suffix="encrypt") if "aead" in call_name(c)]
     for c in enc:
@@ -124,7 +127,7 @@ def r1_c(repo, chk):
         chk.ob("R1", f"{fname}: the whole associated data is fed to the cipher before the payload", ok, f"{len(aad)} AAD updates, {len(pay)} payload updates", cu.loc(fn))
         if pay:
             src = ctext(strip(cq.args(pay[0])[3]))
-            ln = ctext(strip(cq.args(pay[0])[4])).replace("(int)", "")
+            ln = cq.rtext(fn, cq.args(pay[0])[4], keep=("data", "data_len")).replace("(int)", "").replace("(Py_ssize_t)", "")
             want = "data_len - 16" if decrypt else "data_len"
             chk.ob("R1", f"{fname}: the payload update covers {'everything but the tag' if decrypt else 'the whole plaintext'}", src == "data" and ln.replace("(", "").replace(")", "") == want, f"EVP_CipherUpdate(..., {src}, {ln})", cu.loc(pay[0]))
         # nonce
@@ -169,7 +172,7 @@ def r1_c(repo, chk):
         if decrypt and fin:
             # tag position and the check of the result
             ctrl = [c for c in cq.calls(fn, "EVP_CIPHER_CTX_ctrl") if cq.ceval(cq.args(c)[2]) == 16]
-            okt = len(ctrl) == 1 and ctext(strip(cq.args(ctrl[0])[3])).replace("(void *)", "").replace("(", "").replace(")", "") == "data + data_len - 16"
+            okt = len(ctrl) == 1 and cq.rtext(fn, cq.args(ctrl[0])[3], keep=("data", "data_len")).replace("(void *)", "").replace("(", "").replace(")", "") == "data + data_len - 16"
             chk.ob("R1", "AEAD_decrypt: the expected tag is the last 16 bytes of the input", okt, f"{ctext(strip(cq.args(ctrl[0])[3])) if ctrl else ''}", cu.loc(fn))
             ifs = [n for n in cq.preorder(cq.body(fn)) if n.get("kind") == "IfStmt"]
             okf = False
@@ -215,19 +218,26 @@ def r1_c(repo, chk):
     for fname, sample_want, buf_src in (("HeaderProtection_apply", "payload+4-pn_length", None), ("HeaderProtection_remove", "packet+pn_offset+4", None)):
         fn = cu.func(fname)
         mcs = cq.calls(fn, "HeaderProtection_mask")
-        ok = len(mcs) == 1 and sq(cq.args(mcs[0])[1]) == sample_want
-        chk.ob("R1", f"{fname}: the sample starts 4 bytes after the start of the packet number", ok, f"sample argument {sq(cq.args(mcs[0])[1]) if mcs else None}", cu.loc(fn))
+        got_sample = re.sub(r"[\s()]+", "", cq.rtext(fn, cq.args(mcs[0])[1], keep=("pn_length", "pn_offset", "payload", "packet"))) if mcs else None
+        ok = len(mcs) == 1 and got_sample == sample_want
+        chk.ob("R1", f"{fname}: the sample starts 4 bytes after the start of the packet number", ok, f"sample argument {got_sample}", cu.loc(fn))
         xs = [n for n in cq.preorder(cq.body(fn)) if n.get("kind") == "CompoundAssignOperator" and n.get("opcode") == "^="]
         first = sorted(sq(cq.kids(x)[1]) for x in xs if sq(cq.kids(x)[0]) == "self->buffer[0]")
         chk.ob("R1", f"{fname}: first byte: low 4 bits masked for long headers, low 5 bits for short headers", first == ["self->mask[0]&15", "self->mask[0]&31"], f"{first}", cu.loc(fn))
-        long_if = [n for n in cq.preorder(cq.body(fn)) if n.get("kind") == "IfStmt" and sq(cq.kids(n)[0]) == "self->buffer[0]&128"]
-        ok = len(long_if) == 1 and any(x.get("kind") == "CompoundAssignOperator" and sq(cq.kids(x)[1]) == "self->mask[0]&15" for x in cq.preorder(cq.kids(long_if[0])[1]))
+        long_if = [(n, sq(cq.kids(n)[0])) for n in cq.preorder(cq.body(fn)) if n.get("kind") == "IfStmt" and sq(cq.kids(n)[0]).replace("(", "").replace(")", "") in ("self->buffer[0]&128", "!self->buffer[0]&128")]
+        ok = len(long_if) == 1
+        if ok:
+            n_, t_ = long_if[0]
+            neg = t_.startswith("!")
+            ks = cq.kids(n_)
+            long_branch = (ks[2] if len(ks) > 2 else None) if neg else ks[1]
+            ok = long_branch is not None and any(x.get("kind") == "CompoundAssignOperator" and sq(cq.kids(x)[1]) == "self->mask[0]&15" for x in cq.preorder(long_branch))
         chk.ob("R1", f"{fname}: the 4-bit mask is the one used when the long-header bit is set", ok, "", cu.loc(fn))
         good = False
         for l in cq.for_loops(fn):
             r = cq.loop_range(l)
             var = r[0] if r else None
-            cond = strip(l["inner"][2]) if len(l.get("inner", [])) > 2 and l["inner"][2] else None
+            cond = cq.mirror_cond(strip(l["inner"][2])) if len(l.get("inner", [])) > 2 and l["inner"][2] else None
             if var is None and cond is not None and cond.get("kind") == "BinaryOperator" and cond.get("opcode") == "<" and sq(cq.kids(cond)[1]) == "pn_length":
                 var = sq(cq.kids(cond)[0])
             for x in cq.preorder(l):
@@ -413,40 +423,41 @@ def r3(repo, chk, prog):
     rr = Fn(repo, CONN + "_receive_retry_packet")
     fr = prog.by_ref[CONN + "_receive_retry_packet"]
     purity = Purity(prog)
-    tests = [st for st in rr.node.body if isinstance(st, ast.If)]
-    gate = None
-    for st in tests:
-        for n in ast.walk(st.test):
-            if isinstance(n, ast.Compare) and len(n.ops) == 1 and isinstance(n.ops[0], ast.Eq):
-                sides = [n.left, n.comparators[0]]
-                if any(norm(s) == "header.integrity_tag" for s in sides) and any(isinstance(s, ast.Call) and call_name(s) == "get_retry_integrity_tag" for s in sides):
-                    gate = (st, n, next(s for s in sides if isinstance(s, ast.Call)))
-    chk.ob("R3", "_receive_retry_packet compares the packet's integrity tag with the computed one", gate is not None, "tag comparison vanished: any Retry packet would be accepted", rr.loc(rr.node))
-    if gate is None:
+    # the gate, semantically: every state effect is dominated by (tag == computed tag) and by the other three
+    # conditions, in whatever syntactic form (nested ifs, early return after the negated disjunction, ...)
+    calls = [c for c in rr.calls(name="get_retry_integrity_tag")]
+    chk.ob("R3", "_receive_retry_packet compares the packet's integrity tag with the computed one", len(calls) == 1, "tag computation vanished: any Retry packet would be accepted", rr.loc(rr.node))
+    if len(calls) != 1:
         return
-    st, cmp_, call = gate
-    # the comparison is a conjunct of the test (not under `or`)
-    conj = isinstance(st.test, ast.BoolOp) and isinstance(st.test.op, ast.And) and cmp_ in st.test.values or st.test is cmp_
-    chk.ob("R3", "the tag comparison is a conjunct of the accepting condition", conj, "the comparison can be bypassed by another disjunct", rr.loc(st))
-    # the other conjuncts: a Retry is acted upon by a client, once, and only when addressed to this connection - a
-    # duplicated (or replayed: the Retry tag key is public) Retry must not restart the handshake a second time
-    conjs = [norm(v) for v in st.test.values] if isinstance(st.test, ast.BoolOp) and isinstance(st.test.op, ast.And) else []
-    incs = [s2 for s2, t2, v2 in rr.assigns(chain="self._retry_count") if isinstance(s2, ast.AugAssign) and isinstance(s2.op, ast.Add) and inside(s2, st) and not any(inside(s2, o) for o in st.orelse)]
-    ok = "self._is_client" in conjs and "not self._retry_count" in conjs and "header.destination_cid == self.host_cid" in conjs and len(incs) == 1
-    chk.ob("R3", "a Retry is processed only by a client, only once (the counter it tests is incremented in the accepting branch) and only when it names this connection's source ID", ok, f"conjuncts {conjs}, increments {len(incs)}", rr.loc(st))
+    call = calls[0]
+
+    def gate_atoms(atoms):
+        tag = [x for x in atoms if x[1] and "header.integrity_tag" in x[0] and "get_retry_integrity_tag(" in x[0] and " == " in x[0]]
+        return {
+            "tag": bool(tag),
+            "client": ("self._is_client", True) in atoms,
+            "once": ("self._retry_count", False) in atoms,
+            "dcid": natom("header.destination_cid == self.host_cid") in atoms,
+        }
+
     a = [norm(x) for x in call.args] + [f"{k.arg}={norm(k.value)}" for k in call.keywords]
     ok = len(call.args) >= 2 and a[0] == "packet_without_tag" and a[1] == "self._peer_cid.cid" and ("version=header.version" in a or (len(a) > 2 and a[2] == "header.version"))
     chk.ob("R3", "the tag is computed over the received packet minus its tag, the original destination CID and the packet's version", ok, f"arguments {a}", rr.loc(call))
     n_eff = 0
+    all_gates = []
     for s2 in rr.stmts():
         effs = _effects(prog, purity, fr, rr, s2)
         if not effs:
             continue
         n_eff += 1
-        inside_true = any(inside(s2, b) or s2 is b for b in st.body)
-        chk.ob("R3", f"_receive_retry_packet: `{norm(s2)[:60]}` only happens for an authentic Retry", inside_true, f"{effs[:2]} outside the accepting branch", rr.loc(s2))
+        g = gate_atoms(rr.guard_atoms(s2))
+        all_gates.append(g)
+        chk.ob("R3", f"_receive_retry_packet: `{norm(s2)[:60]}` only happens for an authentic Retry", g["tag"], f"{effs[:2]} not dominated by the successful tag comparison", rr.loc(s2))
     if n_eff < 3:
         raise AnalysisError("_receive_retry_packet: expected state effects not found (effect analysis broken)")
+    incs = [s2 for s2, t2, v2 in rr.assigns(chain="self._retry_count") if isinstance(s2, ast.AugAssign) and isinstance(s2.op, ast.Add) and gate_atoms(rr.guard_atoms(s2))["tag"]]
+    ok = bool(all_gates) and all(g["client"] and g["once"] and g["dcid"] for g in all_gates) and len(incs) == 1
+    chk.ob("R3", "a Retry is processed only by a client, only once (the counter it tests is incremented in the accepting branch) and only when it names this connection's source ID", ok, f"gates of the effects {all_gates[:2]}, increments {len(incs)}", rr.loc(rr.node))
     rd = Fn(repo, CONN + "receive_datagram")
     for c in rd.calls(name="self._receive_retry_packet"):
         pw = get_kw(c, "packet_without_tag", 1)
